@@ -303,7 +303,8 @@ OpObs(r, val) ==
                             O("C14", "fail.not_oom:" \o r.op, Has(r.res, "oom")),
                             \* ... and not after enough space has been freed
                             O("C14", "retry.ok:" \o r.op, ~aux.expectOk),
-                            O("C07", "conc.failed:" \o r.op, FALSE) >>
+                            O("C07", "conc.failed:" \o r.op, FALSE),
+                            O("C20", "config.failed:" \o r.op, FALSE) >>
   ELSE
     LET g == r.g
         ok == OpGraphOk(r)
@@ -317,6 +318,9 @@ OpObs(r, val) ==
                 (IF r.op \in PickOps THEN PickDdOk(r, val) ELSE val = Expected(r))),
           O("C07", "conc.canon:" \o r.op, \A s \in Live : (Val(s) = val) <=> (EdgeOf(s) = r.e)),
           O("C07", "conc.graph:" \o r.op, ok /\ GraphOrdered(g) /\ \A i \in 1 .. Len(g) : NodeReduced(g[i])),
+          O("C20", "config.sem:" \o r.op, ArgsLive(r) /\
+                (IF r.op \in PickOps THEN PickDdOk(r, val) ELSE val = Expected(r))),
+          O("C20", "config.canon:" \o r.op, \A s \in Live : (Val(s) = val) <=> (EdgeOf(s) = r.e)),
           O("C06", "cache:" \o r.op, ArgsLive(r) /\
                 (IF r.op \in PickOps THEN PickDdOk(r, val) ELSE val = Expected(r))),
           O("C02", "eval", SeqToSet(r.tt) = val),
@@ -512,6 +516,8 @@ SnapObs(r) ==
         O("C14", "snap.after_failure", aux.afterFail =>
               (ok /\ stable /\ GraphOrdered(g) /\ levelsOk /\ reducedOk /\ nodupOk /\ semInj /\ rcOk)),
         \* C07: snapshots are only taken when no operation is in progress
+        O("C20", "config.snap",
+              ok /\ stable /\ GraphOrdered(g) /\ levelsOk /\ reducedOk /\ nodupOk /\ semInj /\ rcOk),
         O("C07", "snap.quiescent",
               ok /\ stable /\ GraphOrdered(g) /\ levelsOk /\ reducedOk /\ nodupOk /\ semInj /\ rcOk),
         O("C07", "snap.gc.complete", (aux.afterGc /\ ok) => \A i \in I : N[i][4] > 0),
